@@ -6,6 +6,7 @@ package auth
 
 import (
 	"context"
+	"errors"
 	"fmt"
 	"strings"
 
@@ -334,12 +335,32 @@ func (w *world) recIndex(id string, upto int) int {
 }
 
 // receiver builds a fresh, fully validating AclList over the first k records.
-func (w *world) receiver(k int, keys *accountdata.AccountKeys) (list.AclList, error) {
+func (w *world) receiver(k int, keys *accountdata.AccountKeys) (list.AclList, *faultyAclStorage, error) {
 	st, err := list.NewInMemoryStorage(w.recs[0].Id, w.recs[:k])
 	if err != nil {
-		return nil, err
+		return nil, nil, err
 	}
-	return list.BuildAclListWithIdentity(keys, st, recordverifier.NewValidateFull())
+	fs := &faultyAclStorage{Storage: st}
+	acl, err := list.BuildAclListWithIdentity(keys, fs, recordverifier.NewValidateFull())
+	return acl, fs, err
+}
+
+// faultyAclStorage is the receiver's ACL record storage with an injectable write fault (disk full,
+// failed transaction): "a record exists locally" means it was STORED and APPLIED.
+type faultyAclStorage struct {
+	list.Storage
+	failAdd bool
+	failed  int
+}
+
+var errAclDiskFull = errors.New("verif: acl storage write refused (disk is full)")
+
+func (f *faultyAclStorage) AddAll(ctx context.Context, records []list.StorageRecord) error {
+	if f.failAdd {
+		f.failed++
+		return errAclDiskFull
+	}
+	return f.Storage.AddAll(ctx, records)
 }
 
 // ---- ACL histories ----
